@@ -123,6 +123,54 @@ Section Sim.
       destruct (Hgen ns [] e e eq_refl eq_refl Hinv0 Hev) as (ef' & Hev' & Hif). rewrite Hev'.
       eapply Hout; eauto.
     Qed.
+
+    (* the same simulation, keeping the FINAL ENVIRONMENT of the rewritten graph (for the preservation of annotations) *)
+    Theorem sim_env ns e ef :
+      ssa V ns e -> Inv e e -> evalg ns e = Some ef ->
+      (forall pre n post em em' e1, ns = pre ++ n :: post -> evalg pre e = Some em ->
+         (forall x a, em x = Some a -> ef x = Some a) -> Inv em em' -> stepg em n = Some e1 ->
+         (forall x a, e1 x = Some a -> ef x = Some a) ->
+         if keep n then exists e1', stepg em' (tr n) = Some e1' /\ Inv e1 e1' else Inv e1 em') ->
+      exists ef', evalg (map tr (filter keep ns)) e = Some ef' /\ Inv ef ef'.
+    Proof.
+      intros Hssa Hinv0 Hev Hstep.
+      assert (Hgen : forall post pre em em', ns = pre ++ post -> evalg pre e = Some em -> Inv em em' ->
+                evalg post em = Some ef -> exists ef', evalg (map tr (filter keep post)) em' = Some ef' /\ Inv ef ef').
+      { induction post as [|n post IH]; intros pre em em' Hsplit Hpre Hi Hpost.
+        - simpl in Hpost. injection Hpost as <-. exists em'. split; auto.
+        - simpl in Hpost. destruct (stepg em n) as [e1|] eqn:Es; [|discriminate].
+          assert (Hle : forall x a, em x = Some a -> ef x = Some a).
+          { apply (prefix_le_final V sem pre (n :: post) e em ef); [now rewrite <- Hsplit | exact Hpre |].
+            simpl. now rewrite Es. }
+          assert (Hpre1 : evalg (pre ++ [n]) e = Some e1) by (rewrite eval_app, Hpre; simpl; now rewrite Es).
+          assert (Hsplit1 : ns = (pre ++ [n]) ++ post) by (rewrite <- app_assoc; exact Hsplit).
+          assert (Hle1 : forall x a, e1 x = Some a -> ef x = Some a).
+          { apply (prefix_le_final V sem (pre ++ [n]) post e e1 ef); [now rewrite <- Hsplit1 | exact Hpre1 | exact Hpost]. }
+          pose proof (Hstep pre n post em em' e1 Hsplit Hpre Hle Hi Es Hle1) as Hk.
+          simpl. destruct (keep n).
+          + destruct Hk as (e1' & Es' & Hi1). simpl. rewrite Es'. eapply IH; eauto.
+          + eapply IH; eauto. }
+      exact (Hgen ns [] e e eq_refl eq_refl Hinv0 Hev).
+    Qed.
+
+    Lemma ssa_sim ns e : (forall n, n_outs (tr n) = n_outs n) -> ssa V ns e -> ssa V (map tr (filter keep ns)) e.
+    Proof.
+      intros Hout [Hnd Hfree].
+      assert (Hdefs : forall l, defs (map tr l) = defs l).
+      { unfold defs. induction l as [|n r IH]; simpl; auto. now rewrite Hout, IH. }
+      assert (Hsub : forall y, In y (defs (filter keep ns)) -> In y (defs ns)).
+      { unfold defs. intros y Hy. apply in_flat_map in Hy as (m & Hm & Hy). apply filter_In in Hm as [Hm _]. apply in_flat_map. eauto. }
+      split.
+      - rewrite Hdefs. clear - Hnd. unfold defs in *. induction ns as [|n r IH]; simpl in *; [constructor|].
+        assert (Hr : NoDup (flat_map n_outs r)) by (eapply NoDup_app_r; eauto).
+        destruct (keep n); [|auto]. simpl.
+        assert (Hincl : forall y, In y (flat_map n_outs (filter keep r)) -> In y (flat_map n_outs r)).
+        { intros y Hy. apply in_flat_map in Hy as (m & Hm & Hy). apply filter_In in Hm as [Hm _]. apply in_flat_map. eauto. }
+        revert Hnd. generalize (n_outs n) as l. induction l as [|a l IHl]; simpl; intro H; [now apply IH|].
+        inversion H as [|? ? Hni Hnd']; subst. constructor; [|now apply IHl].
+        intro Hin. apply Hni. apply in_app_or in Hin as [Hin|Hin]; apply in_or_app; [now left | right; now apply Hincl].
+      - intros y Hy. rewrite Hdefs in Hy. apply Hfree. now apply Hsub.
+    Qed.
   End General.
 
   (* ---- the invariant used by the passes *)
